@@ -822,7 +822,37 @@ func (m *Machine) Oracle(name string, outLen int, inj bool, args [][]*Term) []*T
 		} else if outLen > 0 {
 			outT = catBytes(app.out)
 		}
-		if outT != nil {
+		// explicit pairwise axioms against the most recent applications of the same
+		// function (the solver decides these quickly); beyond pairK applications the
+		// linear UF encoding below takes over.
+		const pairK = 1 << 30 // complete pairwise instantiation (the UF+inverse encoding made z3 4.8.12 answer unknown on wide arguments)
+		same := 0
+		for i := len(p.oracles) - 1; i >= 0; i-- {
+			prev := p.oracles[i]
+			if prev.name != name || len(prev.out) != len(app.out) {
+				continue
+			}
+			same++
+			if same > pairK {
+				break
+			}
+			argsEq := TrueT
+			if len(prev.args) != len(args) {
+				argsEq = FalseT
+			} else {
+				for k := range args {
+					argsEq = And(argsEq, bytesEqTerm(prev.args[k], args[k]))
+				}
+			}
+			outEq := bytesOrBoolEq(prev.out, app.out)
+			if !argsEq.IsFalse() {
+				m.addPC(Implies(argsEq, outEq))
+			}
+			if inj && outLen > 0 {
+				m.addPC(Implies(outEq, argsEq))
+			}
+		}
+		if outT != nil && same > pairK {
 			fname := fmt.Sprintf("F!%s!%s!%d", name, lens, outW)
 			m.addPC(Eq(UF(fname, outW, in), outT))
 			if inj && outLen > 0 {
